@@ -1812,7 +1812,20 @@ impl<'a, E: quiver_core::effects::Effect> Compiler<'a, E> {
             return Ok(self.program.register_type(Type::nil()));
         }
 
-        // Register locals for all bindings (indices needed for Load)
+        // Generate pattern matching code (Store instructions push locals)
+        // Use on_no_match if provided (for receive blocks), otherwise use fail_jump_addr
+        let fail_target = on_no_match.unwrap_or(fail_jump_addr);
+        pattern::generate_pattern_code(
+            &mut self.codegen,
+            self.program,
+            &self.scopes,
+            &binding_sets,
+            fail_target,
+        )?;
+
+        // Register locals for all bindings (indices needed for Load). This comes after the pattern
+        // code so that a pin (`&x`) in a pattern that also binds `x` still checks against the
+        // existing `x`, not the slot about to be filled.
         for (variable_name, variable_type) in &bindings {
             let local_index = self.local_count;
             self.local_count += 1;
@@ -1838,17 +1851,6 @@ impl<'a, E: quiver_core::effects::Effect> Compiler<'a, E> {
                 );
             }
         }
-
-        // Generate pattern matching code (Store instructions push locals)
-        // Use on_no_match if provided (for receive blocks), otherwise use fail_jump_addr
-        let fail_target = on_no_match.unwrap_or(fail_jump_addr);
-        pattern::generate_pattern_code(
-            &mut self.codegen,
-            self.program,
-            &self.scopes,
-            &binding_sets,
-            fail_target,
-        )?;
 
         // Apply narrowing to the matched value's provenance if the pattern narrows the type.
         // This is done here on the success path - the type has been narrowed by the pattern.
